@@ -76,11 +76,16 @@ class Ctx:
         return f"{self.tag}_{name}"
 
     def cleanup(self, failed=False):
+        """scratch of this run; after a violation / failure the inputs and outputs of the trace validation (and of a TLC
+        run that found a violation of the model itself) stay for replay"""
         keep = bool(self.rep.violations) or failed
+        spec_viol = failed or any(k.startswith("spec:") for k, _ in self.rep.violations)
         pats = [os.path.join(WORK, f"rg_{self.tag}_*"), os.path.join(WORK, "records", f"{self.tag}_*"),
                 os.path.join(WORK, "records", f"rec_{self.tag}_*")]
         if not keep:
             pats += [os.path.join(WORK, "tlc", f"*{self.tag}_*"), os.path.join(WORK, "traces", f"{self.tag}_*")]
+        elif not spec_viol:
+            pats += [os.path.join(WORK, "tlc", f"{self.tag}_*"), os.path.join(WORK, "tlc", f"rec_{self.tag}_*")]
         for p in pats:
             for d in glob.glob(p):
                 shutil.rmtree(d, ignore_errors=True)
